@@ -36,12 +36,13 @@ m.write('C13', 'An aborted session still leaves a well-formed log of the complet
  (E, 'ex_aborted_log_shape', 'C13_example_aborted_log', None),
  (E, 'ex_aborted_model_is_the_real_run', 'C13_example_model_is_the_real_run', None),
 ])
-m.write('C08', "The table manager's log records exactly what was played (every schedule).", IMP, '''(* FULL STATEMENT (not proved in this form): for every board list and conforming script the logged records equal
+m.write('C08', "The table manager's log records exactly what was played (every schedule).", IMP.replace('Proofs.SessionExamples.', 'Proofs.SessionExamples Model.Conform Model.Json Proofs.RecordSpec.'), '''(* FULL STATEMENT (not proved in this form): for every board list and conforming script the logged records equal
    record_spec of Spec/SessionSpec.v.  Proved: schedule independence for every input; the equality with the sequential
    reference is evaluated in Coq (vm_compute) for each session exercised by the check and for the examples below. *)''',
  common('C08') + [
  (S, 'every_schedule_reaches_canonical', 'C08_log_independent_of_timing_partial', 'the final state - hence the log - of a session does not depend on thread timing'),
  (S, 'log_always_wellformed', 'C08_log_wellformed', None),
+ ('Proofs/RecordSpec.v', 'model_record_is_record_spec', 'C08_model_record_is_the_reference_record', 'FULL, for every board and every conforming script (sequential, no threads): the record the table manager model builds with the MODEL functions (take_bid / contract_of, play_by / tricks, calc_score) is, as a JSON value, exactly record_spec of the sequential reference built with the SPEC functions (Laws, play reference, Law 77 formulas)'),
  (E, 'ex_played_real_run_is_the_reference', 'C08_example_log_is_the_reference', 'non-vacuity: the real run of a two-board session equals the sequential reference (log and transcripts)'),
  (E, 'ex_played_model_is_the_real_run', 'C08_example_model_is_the_real_run', None),
  (E, 'ex_passed_out_real_run_is_the_reference', 'C08_example_passed_out', None),
